@@ -187,7 +187,7 @@ class FixedMarginBusiness(Sector):
         # The labour demand variable must exist before any Market runs _GenerateEquations(),
         # otherwise the result depends on the order in which sectors are declared.
         self.AddVariable('DEM_' + labour_input_name, 'Demand for labour', '')
-        self.AddVariable('PROF', 'Profits', 'SUP_GOOD - DEM_' + labour_input_name)
+        self.AddVariable('PROF', 'Profits', 'SUP_' + output_name + ' - DEM_' + labour_input_name)
 
     def _GenerateEquations(self):
         # self.AddVariable('SUP_GOOD', 'Supply of goods', '<TO BE DETERMINED>')
